@@ -100,6 +100,7 @@ def step (s : St) (line : String) : St × List String :=
   | ["CFG", "mintClamp", v] => ({ s with cfg := { cfg with mintClamp := v == "1" } }, [])
   | ["CFG", "betFee", v] => ({ s with cfg := { cfg with betFee := v == "1" } }, [])
   | ["CFG", "house", v] => ({ s with cfg := { cfg with house := v == "1" } }, [])
+  | ["CFG", "houseFeeCap", v] => ({ s with cfg := { cfg with houseFeeCap := v == "1" } }, [])
   | "V" :: "mint" :: denom :: bpy :: ex :: _n :: rest =>
     let bpyO := (optInt bpy).filter (fun v => decide (-MintParams.maxInt64 - 1 ≤ v) && decide (v ≤ MintParams.maxInt64))
     let exO := optInt ex
